@@ -16,6 +16,7 @@ package lib
 import (
 	"encoding/json"
 	"fmt"
+	"io"
 	"net"
 	"runtime"
 	"strings"
@@ -25,6 +26,7 @@ import (
 
 	"github.com/refraction-networking/conjure/pkg/station/log"
 	pb "github.com/refraction-networking/conjure/proto"
+	"google.golang.org/protobuf/proto"
 	"pgregory.net/rapid"
 	"verif/harness/vh"
 )
@@ -34,7 +36,19 @@ type c05ProxyCase struct {
 	Mode   string    `json:"mode"`            // sink | reply-fin | reply-rst | refuse
 	Reply  []int     `json:"reply,omitempty"` // sizes of the covert's writes
 	Await  int       `json:"await,omitempty"` // reply modes: upload bytes the covert reads before it replies
+	// Header: "" registration without the proxy_header flag; "ok" flag set, the client's RemoteAddr is
+	// ip:port (the covert first gets the PROXY line); "bad-remote" flag set but RemoteAddr is not
+	// host:port (as with pipe / non-IP transport conns), so the header cannot be sent and Proxy gives up.
+	Header string `json:"header,omitempty"`
 }
+
+// c05Addr is a net.Addr that is not host:port.
+type c05Addr string
+
+func (a c05Addr) Network() string { return string(a) }
+func (a c05Addr) String() string  { return string(a) }
+
+const c05ProxyLine = "PROXY TCP4 203.0.113.77 127.0.0.1 5555 1234\r\n" // for the scripted client's RemoteAddr
 
 type c05ProxyEnv struct {
 	e   *vEnv
@@ -63,6 +77,7 @@ type c05CovertRes struct {
 	recvBad int // first received byte that differs from the client's stream (-1 none)
 	sent    int
 	readErr string
+	hdrErr  string // the PROXY line did not arrive (error text) or differs
 }
 
 // c05Covert plays the covert's side of one tunnel.
@@ -77,8 +92,20 @@ func c05CovertServe(ln *net.TCPListener, c c05ProxyCase, clientStream, reply []b
 	}
 	tc := conn.(*net.TCPConn)
 	defer tc.Close()
-	_ = tc.SetDeadline(time.Now().Add(60 * time.Second))
+	_ = tc.SetDeadline(time.Now().Add(c05WaitLimit + 30*time.Second)) // after the case watchdog
 	buf := make([]byte, 64*1024)
+	if c.Header == "ok" && !(c.Mode == "reply-rst" && c.Await == 0) { // (a covert that resets at once does not read it: the header write may fail)
+		hdr := make([]byte, len(c05ProxyLine))
+		if _, err := io.ReadFull(tc, hdr); err != nil {
+			res.hdrErr = "read: " + err.Error()
+			res.readErr = err.Error()
+			return
+		}
+		if string(hdr) != c05ProxyLine {
+			res.hdrErr = fmt.Sprintf("got %q", hdr)
+			return
+		}
+	}
 	recv := func(limit int) bool { // limit < 0: until error
 		for limit < 0 || res.recvN < limit {
 			b := buf
@@ -161,6 +188,13 @@ func c05RunProxy(env *c05ProxyEnv, c c05ProxyCase) (out c05Out) {
 	defer w.stop()
 	client := c05NewConn(w, c05Client, c.Client, cs, reply)
 	reg := *env.reg // a private copy: Proxy counts tunnels on it
+	if c.Header != "" {
+		reg.Flags = &pb.RegistrationFlags{ProxyHeader: proto.Bool(true)}
+		set["header:"+c.Header] = true
+	}
+	if c.Header == "bad-remote" {
+		client.remote = c05Addr("pipe")
+	}
 	var res c05CovertRes
 	covDone := make(chan struct{})
 	if c.Mode == "refuse" {
@@ -183,6 +217,7 @@ func c05RunProxy(env *c05ProxyEnv, c c05ProxyCase) (out c05Out) {
 	closeBegun, closeSyncOpen := false, 0
 	t0 := time.Now()
 	orphaned := 0 // consecutive observations of "Proxy waits, no halfPipe alive"
+	lonely := 0   // consecutive observations of "one halfPipe left, client never closed, no closer pending"
 	for !returned {
 		select {
 		case pan = <-pdone:
@@ -195,18 +230,64 @@ func c05RunProxy(env *c05ProxyEnv, c c05ProxyCase) (out c05Out) {
 			} else {
 				orphaned = 0
 			}
+			// one direction has returned (its goroutine is gone, no detached closer is pending) but the
+			// client connection has not even seen a Close call: that direction ended without tearing
+			// down, and the other one relays on alone. A state, not a matter of timing: a direction that
+			// ends calls Close on its destination itself and hands its source to a closer before it returns.
+			pipes, closers, waits := c05RelayCensus()
+			if begun, _, _ := client.closeState(); waits && pipes == 1 && closers == 0 && !begun {
+				lonely++
+			} else {
+				lonely = 0
+			}
+			if lonely >= 2 {
+				out.key, out.msg = "teardown:direction-ended-without-closing", "one direction of the tunnel has returned, yet Close was never called on the client connection and no closer is pending; the other direction keeps relaying alone, so the tunnel is not torn down (Proxy returns only when a stall time-out fires, if ever)"
+				out.nontriv = true
+				w.mu.Lock()
+				w.abortCase(out.key, out.msg) // close the client connection so that the rest of the tunnel ends
+				w.mu.Unlock()
+				select {
+				case <-pdone:
+				case <-time.After(10 * time.Second):
+				}
+				select {
+				case <-covDone:
+				case <-time.After(10 * time.Second):
+				}
+				return
+			}
 			if orphaned >= 3 {
 				// a permanent state, not a matter of timing: nobody is left who could release the WaitGroup
 				out.key, out.msg = "noreturn:proxy-waits-forever", "Proxy is blocked in wg.Wait() although no halfPipe is running any more: the call never returns and the session gauge stays raised"
 				return
 			}
-			if time.Since(t0) > c05WaitLimit {
-				return c05Out{key: "harness", msg: fmt.Sprintf("Proxy did not return within %v; relay goroutines: %v", c05WaitLimit, gs)}
+			if time.Since(t0) > c05WaitLimit+5*time.Second {
+				// WALL-CLOCK WATCHDOG (generous: a tunnel of this sub-check needs milliseconds). The world's
+				// own timer has released every wait of the scripted connection 5 s ago.
+				if !inPipe {
+					return c05Out{key: "harness", msg: fmt.Sprintf("Proxy did not return within %v; relay goroutines: %v", c05WaitLimit, gs)}
+				}
+				w.mu.Lock()
+				w.abortCase("noreturn:watchdog", "")
+				w.mu.Unlock()
+				out.key, out.msg = "noreturn:watchdog", fmt.Sprintf("wall-clock watchdog: %v after the start Proxy has not returned and a halfPipe is still running although no wait of the scripted connection holds it (the tunnel needs milliseconds); goroutines inside the relay: %v", c05WaitLimit, gs)
+				return
 			}
 		}
 	}
 	if pan != nil {
 		out.key, out.msg = "panic", fmt.Sprintf("Proxy panicked: %v", pan)
+		return
+	}
+	w.mu.Lock()
+	ab := w.abort
+	w.mu.Unlock()
+	if ab != nil {
+		// a direction kept calling after a failure; the harness closed the client connection (counted, not timed)
+		<-covDone
+		c05WaitGoroutines(base, 10*time.Second)
+		out.nontriv = true
+		out.key, out.msg = ab.key, ab.msg
 		return
 	}
 	select {
@@ -246,6 +327,19 @@ func c05RunProxy(env *c05ProxyEnv, c c05ProxyCase) (out c05Out) {
 	var sum c05Summary
 	line := logbuf.String()
 	i := strings.Index(line, "proxy closed ")
+	if i < 0 && strings.Contains(line, "failed to send PROXY header") {
+		// Proxy gave up before relaying anything (the client connection stays with the caller).
+		// The session gauge and the goroutines were checked above.
+		if c.Header == "" || (c.Header == "ok" && c.Mode != "reply-rst") {
+			return c05Out{key: "harness", msg: fmt.Sprintf("unexpected PROXY header failure (log %q)", line)}
+		}
+		set["header:send-failed"] = true
+		out.nontriv = true
+		if c05Has(evs, func(e c05Ev) bool { return e.Op == "read" || e.Op == "write" }) {
+			out.key, out.msg = "refused:client-io", "Proxy touched the client stream although it gave up before starting the relay"
+		}
+		return
+	}
 	if i < 0 {
 		out.key, out.msg = "stats:no-summary", fmt.Sprintf("Proxy returned without logging a tunnel summary (log: %q)", line)
 		return
@@ -266,6 +360,12 @@ func c05RunProxy(env *c05ProxyEnv, c c05ProxyCase) (out c05Out) {
 			out.key, out.msg = "refused:client-io", "Proxy touched the client stream although the covert could not be dialled"
 		}
 		return
+	}
+	if c.Header == "bad-remote" {
+		return c05Out{key: "harness", msg: fmt.Sprintf("the PROXY header failure that the case scripts did not happen (log %q)", line)}
+	}
+	if res.hdrErr != "" {
+		return c05Out{key: "harness", msg: "the covert did not get the PROXY line first (outside this property): " + res.hdrErr}
 	}
 	fail := func(k, m string) { out.viols = append(out.viols, c05Viol{k, m}) }
 	// down: covert -> client
@@ -458,13 +558,14 @@ func c05ProxyGen(rt *rapid.T) c05ProxyCase {
 	if rapid.IntRange(0, 4).Draw(rt, "slowclose") == 0 {
 		s.CloseMs = rapid.IntRange(15, 40).Draw(rt, "closems")
 	}
+	c.Header = rapid.SampledFrom([]string{"", "", "", "", "ok", "bad-remote"}).Draw(rt, "header")
 	return c
 }
 
 func TestVerif_C05_proxy(t *testing.T) {
-	rec := vh.NewRec("C05", "proxy", "rapid-drawn tunnels through Proxy(): scripted client connection (0-5 upload steps: chunks of 1 B .. 70000 B or, with probability 1/6, a zero-length read without error; optional write fault / SetDeadline fault / Close error / lingering Close of 15-40 ms; last chunk optionally returned together with EOF or an error) x real loopback TCP covert {sinks the upload until the station closes, replies and closes with FIN, replies and resets with SetLinger(0), refuses the connection} with 0-3 reply writes of 1 B .. 70000 B; non-trivial = an injected fault other than a plain EOF alone was hit, or the covert reset / refused; distinct by case")
+	rec := vh.NewRec("C05", "proxy", "rapid-drawn tunnels through Proxy(): scripted client connection (0-5 upload steps: chunks of 1 B .. 70000 B or, with probability 1/6, a zero-length read without error; optional write fault / SetDeadline fault / Close error / lingering Close of 15-40 ms; last chunk optionally returned together with EOF or an error) x real loopback TCP covert {sinks the upload until the station closes, replies and closes with FIN, replies and resets with SetLinger(0), refuses the connection} with 0-3 reply writes of 1 B .. 70000 B x registration {without proxy_header flag (2/3), with the flag and an ip:port client address (PROXY line sent first), with the flag and a client RemoteAddr that is not host:port (header cannot be sent, Proxy gives up)}; the session gauge is compared before / after for every outcome; non-trivial = an injected fault other than a plain EOF alone was hit, or the covert reset / refused; distinct by case")
 	defer rec.Flush()
-	rec.Require("mode:sink", "mode:reply-fin", "mode:reply-rst", "mode:refuse", "up:complete-demanded", "down:complete-demanded", "down-ends-first", "close:sync-attributed", "read:data+eof", "read:zero-length", "close:slow", "write:short")
+	rec.Require("mode:sink", "mode:reply-fin", "mode:reply-rst", "mode:refuse", "up:complete-demanded", "down:complete-demanded", "down-ends-first", "header:ok", "header:bad-remote", "header:send-failed", "close:sync-attributed", "read:data+eof", "read:zero-length", "close:slow", "write:short")
 	c05QuietStats(t)
 	env := c05NewProxyEnv(t)
 	if p := vh.ReplayFile(); p != "" {
@@ -483,6 +584,12 @@ func TestVerif_C05_proxy(t *testing.T) {
 		{Mode: "reply-fin", Client: c05Script{Reads: []c05Step{{N: 3000}}, End: "hold"}, Await: 3000, Reply: []int{1, 70000}},
 		{Mode: "reply-rst", Client: c05Script{Reads: []c05Step{{N: 3000}}, End: "hold"}, Await: 3000, Reply: []int{5000}},
 		{Mode: "refuse", Client: c05Script{End: "hold"}},
+		{Mode: "refuse", Header: "ok", Client: c05Script{End: "hold"}},
+		{Mode: "sink", Header: "ok", Client: c05Script{Reads: []c05Step{{N: 100}, {N: 40000}}, End: "eof"}},
+		{Mode: "reply-fin", Header: "ok", Client: c05Script{Reads: []c05Step{{N: 3000}}, End: "hold"}, Await: 3000, Reply: []int{1, 70000}},
+		{Mode: "sink", Header: "bad-remote", Client: c05Script{Reads: []c05Step{{N: 100}}, End: "eof"}},
+		{Mode: "reply-fin", Header: "bad-remote", Client: c05Script{Reads: []c05Step{{N: 10}}, End: "hold"}, Await: 10, Reply: []int{8}},
+		{Mode: "reply-rst", Header: "ok", Client: c05Script{End: "hold"}},
 		{Mode: "sink", Client: c05Script{Reads: []c05Step{{N: 6}, {N: 0}, {N: 5}}, End: "eof"}},
 		{Mode: "reply-fin", Client: c05Script{Reads: []c05Step{{N: 0}, {N: 3000}, {N: 0}, {N: 1}}, End: "hold"}, Await: 3001, Reply: []int{100}},
 		{Mode: "reply-fin", Client: c05Script{Reads: []c05Step{{N: 3000}}, End: "hold", CloseMs: 40, CloseErr: "reset"}, Await: 3000, Reply: []int{8}},
